@@ -667,51 +667,97 @@ def run_n12(chk, repo):
 
 
 def run_n13(chk, repo):
-    """N13: an estimate is "near a bound" iff it is near its finite lower bound OR near its finite upper bound. The body of
-    _is_close_to_bound is evaluated over the 16 combinations of (lower finite, upper finite, near lower, near upper)"""
+    """N13: an estimate is "near a bound" iff it is near its finite lower bound OR near its finite upper bound. The decision
+    (in _is_close_to_bound, or in check_parameters_near_bounds when the helper was inlined) is evaluated over the 16 combinations
+    of (lower finite, upper finite, near lower, near upper): every comparison / call that sets the value against a bound is
+    abstracted to one boolean per bound, the tests of a bound against +-infinity are evaluated"""
     import copy
     import itertools
     import math
     from sa import tables as T_
-    N13 = chk.rule('N13', '_is_close_to_bound (behind check_parameters_near_bounds and the estimate_near_boundary* strictness '
+    N13 = chk.rule('N13', 'check_parameters_near_bounds / _is_close_to_bound (behind the estimate_near_boundary* strictness '
                           'terms): the answer is (lower finite and near lower) or (upper finite and near upper) in all 16 cases',
                    floor=16)
     rm = repo.module('pharmpy.modeling.results')
     f = rm.functions.get('_is_close_to_bound')
+    if f is not None:
+        f = repo.follow_delegation(f)
+    else:
+        f = rm.functions.get('check_parameters_near_bounds')
     if f is None:
-        raise AnalysisError('N13: _is_close_to_bound not found')
-    f = repo.follow_delegation(f)
-    par = f.node.args.args[0].arg
-    near = rm.functions.get('_is_near_target')
-    near_names = {near.name} if near is not None else {'_is_near_target'}
+        raise AnalysisError('N13: neither _is_close_to_bound nor check_parameters_near_bounds found')
+    pars = {a.value.id for a in ast.walk(f.node) if isinstance(a, ast.Attribute) and a.attr in ('lower', 'upper')
+            and isinstance(a.value, ast.Name)}
+    pars = {p_ for p_ in pars if {'lower', 'upper'} <= {a.attr for a in ast.walk(f.node) if isinstance(a, ast.Attribute)
+                                                          and isinstance(a.value, ast.Name) and a.value.id == p_}}
+    if len(pars) != 1:
+        raise AnalysisError(f'N13: the parameter whose bounds are tested was not identified ({sorted(pars)})')
+    par = next(iter(pars))
+    LOW, UP = f'{par}.lower', f'{par}.upper'
+
+    def is_inf(e):
+        if isinstance(e, ast.UnaryOp) and isinstance(e.op, ast.USub):
+            return is_inf(e.operand)
+        if isinstance(e, ast.Constant) and isinstance(e.value, float) and math.isinf(e.value):
+            return True
+        if isinstance(e, ast.Call) and (dotted(e.func) or '') == 'float' and e.args and isinstance(e.args[0], ast.Constant) \
+                and str(e.args[0].value).lower().lstrip('+-') in ('inf', 'infinity'):
+            return True
+        return unparse(e) in ('math.inf', 'np.inf', 'numpy.inf', 'INF', 'inf')
+
+    def bounds_in(e):
+        return {unparse(a) for a in ast.walk(e) if isinstance(a, ast.Attribute) and unparse(a) in (LOW, UP)}
+
+    def finiteness(e):
+        """a test of a bound against infinity only"""
+        if isinstance(e, ast.Compare) and len(e.ops) == 1:
+            sides = [e.left, e.comparators[0]]
+            return any(unparse(x) in (LOW, UP) for x in sides) and any(is_inf(x) for x in sides)
+        if isinstance(e, ast.Call) and (dotted(e.func) or '').split('.')[-1] in ('isfinite', 'isinf') and e.args:
+            return unparse(e.args[0]) in (LOW, UP)
+        return False
+
+    def near(e):
+        b = bounds_in(e)
+        if len(b) != 1:
+            raise T_.Undecidable(f'`{unparse(e)[:50]}` mentions both bounds')
+        return ast.Name(id='__near_lower' if LOW in b else '__near_upper', ctx=ast.Load())
 
     class Prep(ast.NodeTransformer):
+        def visit_IfExp(self, e):
+            if bounds_in(e.test) and not finiteness(e.test):
+                return near(e)                      # `.. if bound == 0 else ..`: one comparison of the value with the bound
+            return self.generic_visit(e)
+
+        def visit_Compare(self, e):
+            if bounds_in(e) and not finiteness(e):
+                return near(e)
+            if finiteness(e):
+                e = copy.deepcopy(e)
+                e.left = ast.Constant(value=-math.inf if unparse(e.left).startswith('-') else math.inf) if is_inf(e.left) else e.left
+                e.comparators = [ast.Constant(value=-math.inf if unparse(c).startswith('-') else math.inf) if is_inf(c) else c
+                                 for c in e.comparators]
+            return e
+
         def visit_Call(self, c):
-            self.generic_visit(c)
             d = dotted(c.func) or ''
-            if d == 'float' and c.args and isinstance(c.args[0], ast.Constant) and str(c.args[0].value).lower().lstrip('+-') in (
-                    'inf', 'infinity'):
-                return ast.Constant(value=float(c.args[0].value))
-            if d.split('.')[-1] in near_names and len(c.args) >= 2:
-                tgt = unparse(c.args[1])
-                if tgt == f'{par}.lower':
-                    return ast.Name(id='__near_lower', ctx=ast.Load())
-                if tgt == f'{par}.upper':
-                    return ast.Name(id='__near_upper', ctx=ast.Load())
-            if d in ('math.isfinite', 'np.isfinite', 'numpy.isfinite', 'isfinite') and c.args:
-                return ast.Compare(left=ast.Call(func=ast.Name(id='abs', ctx=ast.Load()), args=[c.args[0]], keywords=[]),
-                                   ops=[ast.Lt()], comparators=[ast.Constant(value=math.inf)])
-            if d in ('math.isinf', 'np.isinf', 'numpy.isinf', 'isinf') and c.args:
-                return ast.Compare(left=ast.Call(func=ast.Name(id='abs', ctx=ast.Load()), args=[c.args[0]], keywords=[]),
-                                   ops=[ast.Eq()], comparators=[ast.Constant(value=math.inf)])
-            return c
+            if finiteness(c):
+                fin = ast.Compare(left=ast.Call(func=ast.Name(id='abs', ctx=ast.Load()), args=[c.args[0]], keywords=[]),
+                                  ops=[ast.Lt()], comparators=[ast.Constant(value=math.inf)])
+                return fin if d.split('.')[-1] == 'isfinite' else ast.UnaryOp(op=ast.Not(), operand=fin)
+            if bounds_in(c) and d.split('.')[-1] not in ('bool', 'any', 'all'):
+                return near(c)
+            return self.generic_visit(c)
 
-        def visit_Attribute(self, a):
-            if unparse(a) in ('math.inf', 'np.inf', 'numpy.inf'):
-                return ast.Constant(value=math.inf)
-            return self.generic_visit(a)
-
-    body = [Prep().visit(copy.deepcopy(s_)) for s_ in f.node.body]
+    # the statements that hold the decision: the function body, or the body of the loop over the parameters
+    body = f.node.body
+    for L in ast.walk(f.node):
+        if isinstance(L, ast.For) and bounds_in(L) == {LOW, UP}:
+            body = L.body
+    try:
+        body = [Prep().visit(copy.deepcopy(s_)) for s_ in body]
+    except T_.Undecidable as e:
+        raise AnalysisError(f'N13: {e}')
 
     def ev(e, env):
         if isinstance(e, ast.Call) and dotted(e.func) == 'abs' and e.args:
@@ -740,11 +786,23 @@ def run_n13(chk, repo):
     def run_block(stmts, env):
         for s_ in stmts:
             if isinstance(s_, ast.Expr):
+                c = s_.value
+                if isinstance(c, ast.Call) and isinstance(c.func, ast.Attribute) and c.func.attr == 'append' and c.args:
+                    try:
+                        return ('ret', ev(c.args[0], env))      # the verdict for this parameter is collected
+                    except T_.Undecidable:
+                        pass
                 continue
             if isinstance(s_, ast.Return):
                 return ('ret', ev(s_.value, env) if s_.value is not None else None)
             if isinstance(s_, ast.If):
-                r = run_block(s_.body if ev(s_.test, env) else s_.orelse, env)
+                try:
+                    t = ev(s_.test, env)
+                except T_.Undecidable:
+                    if not (bounds_in(s_) or any(isinstance(x, ast.Name) and x.id.startswith('__near') for x in ast.walk(s_))):
+                        continue                       # a test about something else (value is None: ...)
+                    raise
+                r = run_block(s_.body if t else s_.orelse, env)
                 if r is not None:
                     return r
                 continue
@@ -754,18 +812,19 @@ def run_n13(chk, repo):
                 except T_.Undecidable:
                     env.pop(s_.targets[0].id, None)
                 continue
+            if isinstance(s_, (ast.AnnAssign, ast.AugAssign, ast.Pass)):
+                continue
             raise T_.Undecidable(f'statement {unparse(s_)[:50]}')
         return None
 
     for lf, uf, nl, nu in itertools.product((True, False), repeat=4):
-        env = {f'{par}.lower': 0.0 if lf else -math.inf, f'{par}.upper': 1.0 if uf else math.inf,
-               '__near_lower': nl, '__near_upper': nu, 'value': 0.5, f'{par}.init': 0.5}
-        for a in f.node.args.args[1:]:
-            env.setdefault(a.arg, 0.5)
+        env = {LOW: 0.0 if lf else -math.inf, UP: 1.0 if uf else math.inf, '__near_lower': nl, '__near_upper': nu}
         try:
             r = run_block(body, env)
         except T_.Undecidable as e:
-            raise AnalysisError(f'N13: cannot evaluate _is_close_to_bound: {e}')
+            raise AnalysisError(f'N13: cannot evaluate the near-bound decision in {f.name}: {e}')
+        if r is None and f.name != '_is_close_to_bound':
+            raise AnalysisError(f'N13: no verdict reached in {f.name}')
         got = bool(r[1]) if r is not None else False
         want = (lf and nl) or (uf and nu)
         chk.instance(N13, f'lower finite={lf} upper finite={uf} near lower={nl} near upper={nu}: {got} (expected {want})')
